@@ -47,8 +47,11 @@ class UserProblem(Problem):
         if spec.get("intbounds"):
             # the user wrote the bounds as integers: Problem(np.array([1, 1]), np.array([4, 6]))
             vlb, vub = np.array(vlb).astype(np.int64), np.array(vub).astype(np.int64)
+        clb, cub = F.cons_lb.copy(), F.cons_ub.copy()
+        if spec.get("intbounds") and F.m > 0 and np.isfinite(clb).all() and np.isfinite(cub).all() and (clb == np.round(clb)).all() and (cub == np.round(cub)).all():
+            clb, cub = clb.astype(np.int64), cub.astype(np.int64)
         if F.m > 0:
-            super().__init__(vlb, vub, cons_lb=F.cons_lb.copy(), cons_ub=F.cons_ub.copy())
+            super().__init__(vlb, vub, cons_lb=clb, cons_ub=cub)
         else:
             super().__init__(vlb, vub)
         self.jac_const = not any(F.hasQ) and not F.ccub.any()
